@@ -1,2 +1,9 @@
+//! Replay drivers over seglog, sierradb-protocol and sierradb (real crates, hooks on).
 use replay_common::*;
-fn main() { main_with(&[]); }
+use serde_json::{json, Value};
+
+mod u04;
+
+fn main() {
+    main_with(&[Driver { name: "U04", search: u04::search, run: u04::run }]);
+}
